@@ -267,7 +267,9 @@ class DistinctCountCheck(AbstractCheck):
             if not isinstance(node, ast.Name):
                 continue
             is_count_name = node.id in (DistinctCountCheck._COUNT_NAME, self._field_name_to_count)
-            if not is_count_name and not hasattr(builtins, node.id):
+            # NOTE: Use vars() instead of hasattr() because the latter also finds attributes every module has,
+            #  for example ``__dict__``.
+            if not is_count_name and node.id not in vars(builtins):
                 raise errors.InterfaceError(
                     "cannot evaluate count expression %r: name %r is not defined" % (self._expression, node.id),
                     self.location_of_rule,
